@@ -33,7 +33,7 @@ BOUNDS = {'quick': {'fault sites': len(FAULTS), 'termination causes': len(CAUSES
 OUTSIDE = ["a user start() override that raises after the base class start() has already created a task "
            "(the block is then neither started nor stopped and its task is the block's own leak)",
            "real signal delivery from another process (the handler is invoked synchronously)",
-           "tasks not named in the statement (the helper task of wait_init())", "two independent faults",
+           "two independent faults",
            "other circuit compositions"]
 STUBS = ["virtual-time loop with symbolic clock", "signal.raise_signal(SIGTERM) inside a supporting coroutine"]
 ASSUMPTIONS = ["blocks created implicitly (_ctrl, automatic Repeat) count as blocks"]
@@ -517,9 +517,66 @@ def ends_by_itself(fault):
                      ('fb', 'calc_output'), ('pb', 'event'), ('mt', 'main_task'))
 
 
+def scen_wait_init_waiter(env, failure):
+    """somebody waits in wait_init() while the start-up fails (or is stopped) before the initialisation is complete:
+    when the simulation task has finished, NO task created by edzed is pending - the helper task wait_init() uses
+    to wait for the end of the initialisation included"""
+    circ = fresh_circuit()
+    d = env.real('init_duration', 0, 10, lo_open=True)
+    t_stop = env.real('t_stop', 0, 10)
+
+    class Slow(edzed.AddonAsync, edzed.SBlock):
+        async def init_async(self):
+            await asyncio.sleep(d)
+            if failure != 'never-initialised':
+                self.set_output(1)
+    Slow('slow', init_timeout=20.0)
+    if failure == 'calc':
+        edzed.FuncBlock('fb', func=lambda x: 1 // 0).connect('slow')
+    res = {}
+
+    async def waiter():
+        try:
+            await circ.wait_init()
+            res['wait_init'] = 'returned'
+        except edzed.EdzedInvalidState as err:
+            res['wait_init'] = err
+
+    async def main():
+        task = asyncio.create_task(circ.run_forever())
+        w = asyncio.create_task(waiter(), name='harness waiter')
+        if failure == 'shutdown':
+            await asyncio.sleep(t_stop)
+            if not task.done():
+                try:
+                    await circ.shutdown()
+                except BaseException as err:
+                    res['shutdown'] = err
+        try:
+            await task
+        except BaseException as err:
+            res['end'] = err
+        for _ in range(5):          # a cancelled task needs a loop iteration to finish; wait_init()'s caller resumes
+            await asyncio.sleep(0)  # two iterations after the end of the simulation task
+        res['waiter_done'] = w.done()
+        res['leftover'] = [t.get_name() + ' ' + repr(t.get_coro()) for t in asyncio.all_tasks()
+                           if t is not asyncio.current_task() and not t.done()]
+        for t in asyncio.all_tasks():
+            if t is not asyncio.current_task():
+                t.cancel()
+    vloop.run(main())
+    env.note('wait-init-waiter')
+    stopped_early = failure != 'shutdown' or bool(t_stop < d)        # forks
+    if stopped_early:
+        env.check('wait-init-raises', isinstance(res.get('wait_init'), edzed.EdzedInvalidState), info=lambda: res)
+    env.check('no-leftover-tasks', res['waiter_done'] and not res['leftover'], info=lambda: res)
+
+
 def shards(tier):
     out = [{'name': f'events during clean-up, cause={c}', 'scenario': 'scen_cleanup_events', 'params': {'cause': c}}
            for c in ('shutdown', 'abort')]
+    for f in ('never-initialised', 'calc', 'shutdown'):
+        out.append({'name': f'a task waits in wait_init(): {f}', 'scenario': 'scen_wait_init_waiter', 'params': {'failure': f}})
     for fi, fault in enumerate(FAULTS):
         for cause in CAUSES:
             if cause == 'none' and not ends_by_itself(fault):
